@@ -171,7 +171,8 @@ func formatAttrName(name string) string {
 			break
 		}
 	}
-	if isIdent {
+	// the empty name is not an identifier: it can only be written as ""
+	if isIdent && name != "" {
 		return name
 	} else {
 		return strconv.Quote(name)
